@@ -5,7 +5,13 @@ from props import _fitcheck as X
 ID = "C07"
 SECTIONS = ["ops", "fitters"]
 LEAN_MODULES = ["QExPy.Props.C07"]
-THEOREMS = []
+THEOREMS = ["QExPy.C07_poly_model", "QExPy.C07_lin", "QExPy.C07_quad", "QExPy.C07_expo",
+            "QExPy.C07_gauss", "QExPy.C07_fit_value", "QExPy.C07_fit_value_poly",
+            "QExPy.C07_residual_def", "QExPy.C07_chi2_def", "QExPy.C07_chi2_points",
+            "QExPy.C07_chi2_nonneg", "QExPy.C07_perr_sq", "QExPy.C07_corr_registered",
+            "QExPy.C07_corr_diag", "QExPy.C07_corr_symm", "QExPy.C07_cov_roundtrip",
+            "QExPy.C07_band", "QExPy.C07_band_all", "QExPy.C07_band_poly", "QExPy.C07_grad_exact",
+            "QExPy.C01_quadratic_form", "QExPy.C03_diff_correct"]
 RULE = ("the C06 fits on the whole data set (every pre-set model, polynomial degrees 1-5, three user "
         "models, every sigma pattern, every data-passing form), 4 evaluation points each, evaluated "
         "as scalars, as a list and as an array; fit_function value/uncertainty, residuals (value "
